@@ -282,12 +282,14 @@ static std::string do_parse(no::parser& p, const Decl& d, const std::vector<std:
 // the parser that a move assignment overwrites: it has options, settings and a parse (of a bundle) of its own
 static void make_used(no::parser& q)
 {
-    q.toggle("dropped", "d").short_name("D");
-    q.toggle("dropped2", "d").short_name("E");
-    q.option("dropped3", "d").short_name("F").optional();
+    // a toggle for every letter and digit, an option, positional settings, and parses of bundles
+    const std::string letters = "abcdefghijklmnopqrstuvwxyzABCDEFGHIJKLMNOPQRSTUVWXYZ0123456789";
+    for (char c : letters)
+        q.toggle(std::string("dropped-") + c, "d").short_name(std::string(1, c));
+    q.option("dropped-option", "d").optional();
     q.accept_positionals(7);
     q.greedy_postionals();
-    const char* av[] = { "prog", "-DE", "-DDE", "--dropped3", "x", "pos" };
+    const char* av[] = { "prog", "-ab", "-zyx", "--dropped-option", "x", "pos" };
     try
     {
         q.parse(6, av);
